@@ -1079,6 +1079,9 @@ class GenFunctions(object):
         # fortran_generic must already be empty
         options = node.options
         params = node.ast.params
+        # Do not append to the list in place: it is shared with the
+        # other instantiations of a class template (shallow clone).
+        node.fortran_generic = list(node.fortran_generic)
 
         for rank in range(options.F_assumed_rank_min,
                           options.F_assumed_rank_max+1):
